@@ -1232,7 +1232,8 @@ def fromarrays(cols, dtype=None, names=None, formats=None):
                       for i, n in enumerate(names)])
     scalar = not builtins.any(isinstance(c, (ndarray, list, tuple, _rnp.ndarray)) for c in cols)
     if scalar:
-        vals = [cast_scalar(c, d.field(n)) if d.field(n).kind in "iufb" else c for n, c in zip(d.names, cols)]
+        vals = [cast_list([_py(c)], None, d.field(n))[0] if d.field(n).kind in "iufb" else c
+                for n, c in zip(d.names, cols)]
         return RecScalar(list(d.names), vals, d)
     out = []
     for n, c in zip(d.names, cols):
